@@ -530,3 +530,37 @@ PLANS["C18"] = {
     ],
 }
 CHECKS["C18"] = _core
+
+
+# ----------------------------------------------------------------------------------------------------- C16 tracker
+def trk_consts(maxold, maxfresh, moves, authors=("H", "A1"), reporters=("H", "A1", "A2")):
+    return {"MaxOld": maxold, "MaxFresh": maxfresh, "Authors": list(authors), "Reporters": list(reporters),
+            "WithMoves": moves, "Dev": ["del_marker_claims_reindented_line"], "Mode": "gen"}
+
+
+TRK_VARIANTS = [(f, p) for f in _fn.TRK_FAMILIES for p in _fn.TRK_PRIORS]
+PLANS["C16"] = {
+    "clauses": ["C16_Total", "C16_Bounded", "C16_Chars", "C16_Lines", "C16_RoundTrip"],
+    "module": "Tracker.tla", "const_keys": ["MaxOld", "MaxFresh", "Authors", "Reporters", "WithMoves", "Dev", "Mode"],
+    "executor": _fn.execute_tracker, "tagger": _fn.trk_tags, "end_event": {"ev": "reset", "run": "end"},
+    "prebuild": _fn.build_gaifn, "chunk": 3000,
+    "expect_actions": {"any": ["Upd"]},
+    "rule": "every (old text, old authors, edit, reporter) case TLC enumerates is rendered into real text in a "
+            "seeded choice of family (LF, CRLF, no final newline, multibyte/combining, very long lines, blank fresh "
+            "lines, repeated content) and prior-attribution shape (exact, merged, unsorted, overlapping, out of range, "
+            "zero-length, off a character boundary) and driven through update_attributions and the line conversions",
+    "assumptions": [
+        "TLC 1.8 and the CommunityModules evaluate spec/Tracker.tla correctly",
+        "rendered lines have pairwise distinct tokens and surviving lines keep their order, so the diff is forced "
+        "(the 'repeated' family and overlapping / malformed priors only count for totality and boundedness)",
+    ],
+    "quick": [
+        dict(name="edits", consts=trk_consts(3, 2, True), invariants=["G_Chars", "G_Lines"], budget=5000,
+             variants=TRK_VARIANTS, per_tag=1),
+    ],
+    "thorough": [
+        dict(name="edits", consts=trk_consts(4, 2, True), invariants=["G_Chars", "G_Lines"], budget=60000,
+             variants=TRK_VARIANTS, per_tag=1, timeout=3000),
+    ],
+}
+CHECKS["C16"] = _core
